@@ -85,6 +85,9 @@ def block_pool(tier):
     return pool
 
 
+STATS = {'homonym_wire_names': 0, 'moves_with_bystander_of_the_old_name_in_target': 0}
+
+
 class Gen:
     def __init__(self, rnd, pool):
         self.rnd = rnd
@@ -114,10 +117,38 @@ class Gen:
     def width(self):
         return self.rnd.choice([1, 1, 2, 4, 8, 32])
 
+    def homonym(self, scope, of=None):
+        """a wire name that is in use in ANOTHER scope and free in this one (the same name in several parents is the normal
+        case in real designs: a, r, clk_en ...); `of`: prefer the name of that wire.  None when there is none"""
+        here = self.m.wire_names.get(scope, {})
+        if of is not None:
+            w = self.m.wires[of]
+            return w['name'] if w['scope'] != scope and w['name'] not in here and w['name'] != 'clk' else None
+        c = sorted(set(n for sid, names in self.m.wire_names.items() if sid != scope for n, wid in names.items()
+                       if n not in here and n != 'clk' and not self.m.wires[wid].get('free')))
+        return self.rnd.choice(c) if c else None
+
+    def wname(self, scope):
+        h = self.homonym(scope) if self.rnd.random() < 0.2 else None
+        if h is not None:
+            self.homonyms = getattr(self, 'homonyms', 0) + 1
+        return h or self.fresh('w')
+
     def new_wire(self, scope=None, width=None, name=None, kind='wire'):
         wid = self.fresh('W')
-        self.emit(dict(op='wire', wid=wid, scope=scope or self.scope(), name=name or self.fresh('w'), width=width or self.width(), kind=kind))
+        scope = scope or self.scope()
+        self.emit(dict(op='wire', wid=wid, scope=scope, name=name or self.wname(scope), width=width or self.width(), kind=kind))
         return wid
+
+    def bystander(self, moved, target):
+        """before a wire is moved/renamed into `target`: with probability 1/2 make sure the target parent also owns a third wire
+        that carries the moved wire's present name (when that is possible: another parent), so that a refused or successful
+        move has an uninvolved homonym to disturb"""
+        if self.rnd.random() < 0.5:
+            h = self.homonym(target, of=moved)
+            if h is not None:
+                self.new_wire(scope=target, name=h, kind=self.rnd.choice(['wire', 'wire', 'bidir']))
+                self.bystanders = getattr(self, 'bystanders', 0) + 1
 
     def _ord(self, width=None):
         return [k for k, w in self.m.wires.items() if w['kind'] == 'wire' and w['reg'] and not w.get('free') and k != 'W_clk'
@@ -286,7 +317,9 @@ class Gen:
             if q < 0.4:
                 self.emit(dict(op='rename', wid=wid, new=self.fresh('w') if self.rnd.random() < 0.85 else w['name']))
             elif q < 0.7:
-                self.emit(dict(op='reparentAndRename', wid=wid, to=self.scope(), new=self.fresh('w')))
+                to = self.scope()
+                self.bystander(wid, to)
+                self.emit(dict(op='reparentAndRename', wid=wid, to=to, new=self.fresh('w')))
             else:
                 to = self.scope()
                 if w['name'] in self.m.wire_names[to] and to != w['scope']:
@@ -687,6 +720,7 @@ class Gen:
 
     def g_dup_reparent_rename(self, f):
         a, b = self._two_wires(False)
+        self.bystander(b, self.m.wires[a]['scope'])
         self.emit(dict(op='reparentAndRename', wid=b, to=self.m.wires[a]['scope'], new=self.m.wires[a]['name'] if f else self.fresh('w')))
 
     def g_dup_iface_plain_first(self, f):
@@ -793,4 +827,6 @@ def make_plan(rnd, pool, kind, faulty):
     nf = sum(1 for e in g.exp if e)
     if nf != want:
         return None
+    STATS['homonym_wire_names'] += getattr(g, 'homonyms', 0)
+    STATS['moves_with_bystander_of_the_old_name_in_target'] += getattr(g, 'bystanders', 0)
     return g.ops, nf
